@@ -388,13 +388,18 @@ def orExtract (cap : Captures) (r : Record) : List FieldMatcher → Fragment →
     | some f => some f
     | none => orExtract cap r rest cur
 
+/-- the closure of `ExtractRule::extract` applied to the fragment the matcher returned:
+explicit `payee` wins over a captured one, `account` is *replaced* by the rule's (also by `None`),
+and with an account the record counts as cleared unless the rule says `pending`. -/
+def ruleFinish (rule : Rule) (c : Fragment) : Fragment :=
+  let c := { c with payee := rule.payee.or c.payee }
+  let c := { c with account := rule.account }
+  let c := { c with conversion := rule.conversion.or c.conversion }
+  if c.account.isSome then { c with cleared := c.cleared || !rule.pending } else c
+
 /-- `ExtractRule::extract`. -/
 def ruleExtract (cap : Captures) (r : Record) (rule : Rule) (cur : Fragment) : Option Fragment :=
-  (orExtract cap r rule.matcher.elements cur).map fun c =>
-    let c := { c with payee := rule.payee.or c.payee }
-    let c := { c with account := rule.account }
-    let c := { c with conversion := rule.conversion.or c.conversion }
-    if c.account.isSome then { c with cleared := c.cleared || !rule.pending } else c
+  (orExtract cap r rule.matcher.elements cur).map (ruleFinish rule)
 
 /-- one step of `Extractor::extract`'s loop -/
 def applyRule (cap : Captures) (r : Record) (frag : Fragment) (rule : Rule) : Fragment :=
